@@ -143,8 +143,8 @@ func parseSQL(raw string) string {
 	return unknown
 }
 
-// strLit evaluates a string literal or a + concatenation of literals.
-func strLit(e ast.Expr) (string, bool) {
+// kvStrLit evaluates a string literal or a + concatenation of literals.
+func kvStrLit(e ast.Expr) (string, bool) {
 	switch x := e.(type) {
 	case *ast.BasicLit:
 		if x.Kind != token.STRING {
@@ -156,11 +156,11 @@ func strLit(e ast.Expr) (string, bool) {
 		if x.Op != token.ADD {
 			return "", false
 		}
-		a, ok1 := strLit(x.X)
-		b, ok2 := strLit(x.Y)
+		a, ok1 := kvStrLit(x.X)
+		b, ok2 := kvStrLit(x.Y)
 		return a + b, ok1 && ok2
 	case *ast.ParenExpr:
-		return strLit(x.X)
+		return kvStrLit(x.X)
 	}
 	return "", false
 }
@@ -178,7 +178,7 @@ func (p *pkg) sprintfQuery(e ast.Expr, recv string) (sqlQuery, bool) {
 	if p.src(c.Fun) != "fmt.Sprintf" || len(c.Args) == 0 {
 		return sqlQuery{}, false
 	}
-	text, ok := strLit(c.Args[0])
+	text, ok := kvStrLit(c.Args[0])
 	if !ok {
 		return sqlQuery{stmt: "(SUnknown " + coqStr(p.src(c.Args[0])) + ")"}, true
 	}
